@@ -429,10 +429,10 @@ Proof.
     destruct (is_empty ss) eqn:Ee; cbn [negb andb]; [destruct k; split; discriminate|].
     destruct k.
     + rewrite andthen_ok, oci_loop_ok, validate_registry_scopes_ok, !andb_true_iff, !negb_true_iff.
-      unfold Fresh. rewrite has_dup_false. split.
+      unfold Fresh. rewrite !has_dup_false. split.
       * intros [[H1 [_ H2]] [H3 H4]]. auto.
       * intros [[H2 H1] [H3 H4]]. split; [split; [exact H1|split; [intros s _ []|exact H2]]|split; assumption].
-    + rewrite blob_loop_ok, !andb_true_iff, !negb_true_iff. unfold Fresh. rewrite has_dup_false.
+    + rewrite blob_loop_ok, !andb_true_iff, !negb_true_iff. unfold Fresh. rewrite !has_dup_false.
       fold global_rule_b. rewrite Nat.leb_le, Nat.add_0_r.
       change (forallb (fun s => negb (s_global s) || negb (String.eqb (sv_level (s_sv s)) "skip")) ss)
         with (forallb global_rule_b ss).
@@ -440,3 +440,526 @@ Proof.
       * intros [H1 [[_ H2] [H3 H4]]]. auto.
       * intros [[H2 H1] [H4 H3]]. split; [exact H1|]. split; [split; [intros s _ []|exact H2]|]. split; assumption.
 Qed.
+
+(* ---------- the boolean rules reflect the declarative predicate ---------- *)
+
+Lemma override_entry_reflect : forall kv, override_entry_ok kv = true <-> OverrideEntryOK kv.
+Proof.
+  intros kv. unfold override_entry_ok, OverrideEntryOK.
+  rewrite !andb_true_iff, !mem_str_In, negb_eqb_true, orb_true_iff, negb_eqb_true, String.eqb_eq.
+  split.
+  - intros [[[H1 H2] H3] H4]. repeat split; try assumption.
+    intros E. destruct H4 as [H4|H4]; [contradiction | exact H4].
+  - intros [H1 [H2 [H3 H4]]]. repeat split; try assumption.
+    destruct (String.eqb (snd kv) "skip") eqn:E.
+    + right. apply H4. apply String.eqb_eq. exact E.
+    + left. apply String.eqb_neq. exact E.
+Qed.
+
+Lemma level_reflect : forall sv, level_ok_b sv = true <-> LevelOK sv.
+Proof.
+  intros sv. unfold level_ok_b, LevelOK.
+  rewrite andb_true_iff, mem_str_In, orb_true_iff, is_empty_true, andb_true_iff, negb_eqb_true,
+    forallb_Forall, (Forall_iff _ _ _ override_entry_reflect).
+  split.
+  - intros [H1 [H2|H2]]; split; try assumption; intros Hne; [contradiction | exact H2].
+  - intros [H1 H2]. split; [exact H1|]. destruct (sv_override sv) as [|kv ov] eqn:E.
+    + left; reflexivity.
+    + right. apply H2. discriminate.
+Qed.
+
+Lemma ts_reflect : forall sv, ts_ok (sv_ts sv) = true <-> TimestampOK sv.
+Proof.
+  intros sv. unfold ts_ok, TimestampOK. rewrite !orb_true_iff, !String.eqb_eq. tauto.
+Qed.
+
+Lemma id_reflect : forall id, id_ok_b id = true <-> IdentityOK id.
+Proof.
+  intros id. unfold id_ok_b, IdentityOK.
+  rewrite andb_true_iff, negb_eqb_true, orb_true_iff, String.eqb_eq.
+  split; intros [H0 H]; (split; [exact H0|]); destruct H as [H|H]; try (left; exact H); right.
+  - destruct (cut_byte ":" id) as [[p v]|]; [|discriminate].
+    exists p, v. split; [reflexivity|]. intros Ep. subst p.
+    rewrite String.eqb_refl in H. cbn in H. apply andb_true_iff in H. destruct H as [H1 H2].
+    apply negb_eqb_true in H1. split; [exact H1|].
+    destruct (parse_distinguished_name v) as [m|e]; [exists m; reflexivity | discriminate].
+  - destruct H as [p [v [Ec Hp]]]. rewrite Ec.
+    destruct (String.eqb p x509_subject) eqn:Ep; [|reflexivity].
+    apply String.eqb_eq in Ep. destruct (Hp Ep) as [Hv [m Hm]]. cbn. rewrite Hm.
+    apply negb_eqb_true in Hv. rewrite Hv. reflexivity.
+Qed.
+
+Lemma in_combine_seq : forall {A} (l : list A) start i a,
+  In (i, a) (combine (seq start (List.length l)) l) <->
+  (start <= i)%nat /\ nth_error l (i - start) = Some a.
+Proof.
+  intros A l. induction l as [|x l IH]; intros start i a; cbn [List.length seq combine In].
+  - split; [intros [] | intros [_ H]; destruct (i - start)%nat; discriminate].
+  - rewrite IH. split.
+    + intros [E|[H1 H2]].
+      * inversion E; subst. split; [lia|]. rewrite Nat.sub_diag. reflexivity.
+      * split; [lia|]. replace (i - start)%nat with (S (i - S start)) by lia. exact H2.
+    + intros [H1 H2]. destruct (Nat.eq_dec i start) as [E|Hn].
+      * left. subst. rewrite Nat.sub_diag in H2. cbn in H2. inversion H2. reflexivity.
+      * right. split; [lia|]. replace (i - start)%nat with (S (i - S start)) in H2 by lia. exact H2.
+Qed.
+
+Lemma in_indexed : forall {A} (l : list A) i a, In (i, a) (indexed l) <-> nth_error l i = Some a.
+Proof.
+  intros A l i a. unfold indexed. rewrite in_combine_seq, Nat.sub_0_r. split; [tauto | intros H; split; [lia | exact H]].
+Qed.
+
+Lemma no_overlap_reflect : forall dns, no_overlap_b dns = true <-> NoOverlap dns.
+Proof.
+  intros dns. unfold no_overlap_b, NoOverlap. rewrite forallb_forall. split.
+  - intros H i j a b Hij Ha Hb.
+    apply in_indexed in Ha. apply in_indexed in Hb.
+    specialize (H _ Ha). rewrite forallb_forall in H. specialize (H _ Hb). cbn [fst snd] in H.
+    apply orb_true_iff in H. destruct H as [H|H].
+    + apply Nat.eqb_eq in H. contradiction.
+    + apply negb_true_iff in H. exact H.
+  - intros H [i a] Ha. rewrite forallb_forall. intros [j b] Hb. cbn [fst snd].
+    apply in_indexed in Ha. apply in_indexed in Hb.
+    destruct (Nat.eqb i j) eqn:E; [reflexivity|]. apply Nat.eqb_neq in E.
+    cbn. rewrite (H i j a b E Ha Hb). reflexivity.
+Qed.
+
+Lemma lone_wildcard_reflect : forall l, lone_wildcard_b l = true <-> LoneWildcard l.
+Proof.
+  intros l. unfold lone_wildcard_b, LoneWildcard.
+  rewrite orb_true_iff, negb_true_iff, mem_str_false, Nat.eqb_eq. split.
+  - intros [H|H] Hin; [contradiction|].
+    destruct l as [|a [|b l]]; cbn in H; try discriminate.
+    destruct Hin as [E|[]]. subst. reflexivity.
+  - intros H. destruct (mem_str wildcard l) eqn:E.
+    + apply mem_str_In in E. rewrite (H E). right. reflexivity.
+    + left. apply mem_str_false. exact E.
+Qed.
+
+Lemma stmt_reflect : forall s, stmt_ok_b s = true <-> StmtOK s.
+Proof.
+  intros s. unfold stmt_ok_b, StmtOK.
+  rewrite !andb_true_iff, negb_eqb_true, level_reflect, ts_reflect.
+  destruct (String.eqb (sv_level (s_sv s)) "skip") eqn:E.
+  - apply String.eqb_eq in E. rewrite andb_true_iff, !is_empty_true. split.
+    + intros [[[H1 H2] H3] H4].
+      split; [exact H1|]. split; [exact H2|]. split; [exact H3|].
+      split; [intros _; exact H4 | intros Hn; contradiction].
+    + intros [H1 [H2 [H3 [H4 _]]]]. specialize (H4 E). tauto.
+  - apply String.eqb_neq in E.
+    rewrite !andb_true_iff, !negb_true_iff, !is_empty_false, !forallb_Forall,
+      (Forall_iff _ _ _ store_ok_reflect), (Forall_iff _ _ _ id_reflect),
+      lone_wildcard_reflect, no_overlap_reflect.
+    split.
+    + intros [[[H1 H2] H3] H4].
+      split; [exact H1|]. split; [exact H2|]. split; [exact H3|].
+      split; [intros Hs; contradiction | intros _; tauto].
+    + intros [H1 [H2 [H3 [_ H5]]]]. specialize (H5 E). tauto.
+Qed.
+
+Lemma scope_reflect : forall sc, scope_ok_b sc = true <-> ScopeOK sc.
+Proof.
+  intros sc. unfold scope_ok_b, ScopeOK. rewrite orb_true_iff, String.eqb_eq, andb_true_iff, negb_true_iff.
+  split; (intros [H|[H0 H]]; [left; exact H|right; split; [exact H0|]]).
+  - destruct (cut_byte "/" sc) as [[d r]|]; [|discriminate].
+    rewrite !andb_true_iff, !negb_eqb_true in H. exists d, r. tauto.
+  - destruct H as [d [r [Ec H]]]. rewrite Ec, !andb_true_iff, !negb_eqb_true. tauto.
+Qed.
+
+Lemma stmt_scopes_reflect : forall s, stmt_scopes_ok_b s = true <-> StmtScopesOK s.
+Proof.
+  intros s. unfold stmt_scopes_ok_b, StmtScopesOK.
+  rewrite !andb_true_iff, negb_true_iff, is_empty_false, lone_wildcard_reflect, forallb_Forall,
+    (Forall_iff _ _ _ scope_reflect). tauto.
+Qed.
+
+Lemma one_global_reflect : forall ss,
+  (List.length (filter s_global ss) <= 1)%nat <-> AtMostOneGlobal ss.
+Proof.
+  unfold AtMostOneGlobal. induction ss as [|s rest IH]; cbn [filter].
+  - split; [intros _ i j s t H; destruct i; discriminate | cbn; lia].
+  - destruct (s_global s) eqn:Eg.
+    + cbn [List.length]. split.
+      * intros Hl. assert (Hz : filter s_global rest = []) by (destruct (filter s_global rest); [reflexivity | cbn in Hl; lia]).
+        assert (Hnone : forall k t, nth_error rest k = Some t -> s_global t = false).
+        { intros k t Hk. destruct (s_global t) eqn:Et; [|reflexivity].
+          assert (In t (filter s_global rest)) by (apply filter_In; split; [eapply nth_error_In; eauto | exact Et]).
+          rewrite Hz in H. destruct H. }
+        intros i j a b Ha Hb Ga Gb. destruct i as [|i], j as [|j]; cbn in Ha, Hb.
+        -- reflexivity.
+        -- rewrite (Hnone _ _ Hb) in Gb. discriminate.
+        -- rewrite (Hnone _ _ Ha) in Ga. discriminate.
+        -- rewrite (Hnone _ _ Ha) in Ga. discriminate.
+      * intros H. destruct (filter s_global rest) as [|t l] eqn:Ef; [cbn; lia|]. exfalso.
+        assert (Ht : In t (filter s_global rest)) by (rewrite Ef; left; reflexivity).
+        apply filter_In in Ht. destruct Ht as [Hin Gt]. apply In_nth_error in Hin. destruct Hin as [k Hk].
+        specialize (H 0%nat (S k) s t eq_refl Hk Eg Gt). discriminate.
+    + rewrite IH. split.
+      * intros H i j a b Ha Hb Ga Gb. destruct i as [|i], j as [|j]; cbn in Ha, Hb.
+        -- reflexivity.
+        -- inversion Ha; subst. congruence.
+        -- inversion Hb; subst. congruence.
+        -- f_equal. eapply H; eauto.
+      * intros H i j a b Ha Hb Ga Gb. assert (S i = S j) by (eapply H; eauto). lia.
+Qed.
+
+Theorem wellformed_reflect : forall k d, wellformed_b k d = true <-> WellFormed k d.
+Proof.
+  intros k d. unfold wellformed_b, doc_common_ok_b, WellFormed.
+  rewrite !andb_true_iff, mem_str_In, !negb_true_iff, is_empty_false, has_dup_false,
+    forallb_Forall, (Forall_iff _ _ _ stmt_reflect).
+  destruct k.
+  - rewrite andb_true_iff, negb_true_iff, has_dup_false, forallb_Forall,
+      (Forall_iff _ _ _ stmt_scopes_reflect). tauto.
+  - rewrite andb_true_iff, Nat.leb_le, one_global_reflect, forallb_Forall.
+    assert (Hg : forall s, negb (s_global s) || negb (String.eqb (sv_level (s_sv s)) "skip") = true
+                          <-> (s_global s = true -> sv_level (s_sv s) <> "skip")).
+    { intros s. rewrite orb_true_iff, negb_true_iff, negb_eqb_true. destruct (s_global s); split.
+      - intros [H|H] _; [discriminate | exact H].
+      - intros H. right. apply H. reflexivity.
+      - intros _ H. discriminate.
+      - intros _. left. reflexivity. }
+    rewrite (Forall_iff _ _ _ Hg). tauto.
+Qed.
+
+(* ---------- main theorems ---------- *)
+
+Theorem validate_iff : forall k d, validate k d = EOk <-> WellFormed k d.
+Proof. intros k d. rewrite validate_ok_b. apply wellformed_reflect. Qed.
+
+Theorem oci_iff : forall d, validate_oci d = EOk <-> WellFormed OCI d.
+Proof. intros d. apply (validate_iff OCI). Qed.
+
+Theorem blob_iff : forall d, validate_blob d = EOk <-> WellFormed Blob d.
+Proof. intros d. apply (validate_iff Blob). Qed.
+
+(* ---------- the yielded level enforces integrity ---------- *)
+
+Lemma lookup_remove_other : forall k k' (m : amap), k <> k' -> lookup k (remove_key k' m) = lookup k m.
+Proof.
+  intros k k' m Hne. induction m as [|[a b] m IH]; cbn; [reflexivity|].
+  destruct (String.eqb k' a) eqn:E1.
+  - apply String.eqb_eq in E1. subst a. rewrite IH.
+    apply String.eqb_neq in Hne. rewrite Hne. reflexivity.
+  - cbn. rewrite IH. reflexivity.
+Qed.
+
+Lemma lookup_set_other : forall k k' v (m : amap), k <> k' -> lookup k (set_key k' v m) = lookup k m.
+Proof.
+  intros k k' v m Hne. unfold set_key. cbn.
+  rewrite (proj2 (String.eqb_neq k k') Hne). apply lookup_remove_other. exact Hne.
+Qed.
+
+Lemma apply_override_integrity : forall enf kv enf', apply_override enf kv = inr enf' ->
+  lookup "integrity" enf' = lookup "integrity" enf.
+Proof.
+  intros enf [k v] enf'. unfold apply_override.
+  destruct (negb (mem_str k gen_validation_types)); [discriminate|].
+  destruct (negb (mem_str v gen_validation_actions)); [discriminate|].
+  destruct (String.eqb k "integrity") eqn:E; [discriminate|].
+  destruct (negb (String.eqb k "revocation") && String.eqb v "skip"); [discriminate|].
+  intros H; inversion H; subst. apply lookup_set_other.
+  apply String.eqb_neq in E. congruence.
+Qed.
+
+Lemma apply_overrides_integrity : forall ov enf enf', apply_overrides enf ov = inr enf' ->
+  lookup "integrity" enf' = lookup "integrity" enf.
+Proof.
+  induction ov as [|kv ov IH]; intros enf enf'; cbn [apply_overrides].
+  - intros H; inversion H; reflexivity.
+  - destruct (apply_override enf kv) as [e|enf1] eqn:E1; [discriminate|].
+    intros H. rewrite (IH _ _ H). eapply apply_override_integrity; eauto.
+Qed.
+
+Lemma find_level_In : forall name ls e, find_level name ls = Some e -> In (name, e) ls.
+Proof.
+  intros name ls. induction ls as [|[n e0] ls IH]; intros e; cbn [find_level].
+  - discriminate.
+  - destruct (find_level name ls) as [e'|].
+    + intros H; inversion H; subst. right. apply IH. reflexivity.
+    + destruct (String.eqb n name) eqn:E; [|discriminate].
+      apply String.eqb_eq in E. intros H; inversion H; subst. left. reflexivity.
+Qed.
+
+(* every level of the table other than skip enforces integrity (over Generated.v) *)
+Lemma table_integrity : forall l base, In (l, base) gen_levels ->
+  l = "skip" \/ lookup "integrity" base = Some "enforce".
+Proof.
+  intros l base H. cbn in H.
+  repeat (destruct H as [H|H]; [inversion H; subst; first [right; reflexivity | left; reflexivity]|]).
+  destruct H.
+Qed.
+
+Lemma get_level_integrity : forall l ov n enf, get_level l ov = inr (n, enf) ->
+  l = "skip" \/ lookup "integrity" enf = Some "enforce".
+Proof.
+  intros l ov n enf. unfold get_level.
+  destruct (String.eqb l ""); [discriminate|].
+  destruct (find_level l gen_levels) as [base|] eqn:Ef; [|discriminate].
+  apply find_level_In in Ef. apply table_integrity in Ef.
+  destruct ov as [|kv ov].
+  - intros H; inversion H; subst. exact Ef.
+  - destruct (String.eqb l "skip"); [discriminate|].
+    destruct (apply_overrides base (kv :: ov)) as [e|enf1] eqn:Ea; [discriminate|].
+    intros H; inversion H; subst. destruct Ef as [Ef|Ef]; [left; exact Ef|].
+    right. rewrite (apply_overrides_integrity _ _ _ Ea). exact Ef.
+Qed.
+
+Lemma stmt_yields_integrity : forall s, stmt_ok_b s = true -> YieldsIntegrity s.
+Proof.
+  intros s H. unfold stmt_ok_b in H. rewrite !andb_true_iff in H.
+  destruct H as [[[_ Hl] _] _]. apply get_level_ok in Hl. destruct Hl as [[n enf] Hr].
+  exists n, enf. split; [exact Hr|]. eapply get_level_integrity; eauto.
+Qed.
+
+Lemma accepted_stmts_ok : forall k d, validate k d = EOk -> forallb stmt_ok_b (d_stmts d) = true.
+Proof.
+  intros k d H. apply validate_ok_b in H. unfold wellformed_b, doc_common_ok_b in H.
+  rewrite !andb_true_iff in H. tauto.
+Qed.
+
+Theorem integrity : forall k d, validate k d = EOk -> Forall YieldsIntegrity (d_stmts d).
+Proof.
+  intros k d H. apply accepted_stmts_ok in H. rewrite forallb_Forall in H.
+  eapply Forall_impl; [|exact H]. apply stmt_yields_integrity.
+Qed.
+
+(* ---------- accepted store names are safe path components ---------- *)
+
+Lemma filename_alphabet : forall c, in_alphabet (core gen_re_filename) c = true -> fn_byte c.
+Proof.
+  intros c H. unfold in_alphabet in H. cbn in H. unfold fn_byte.
+  rewrite !orb_true_iff, !andb_true_iff, !N.leb_le in H. lia.
+Qed.
+
+Lemma filename_safe_component : forall nm, FileNameSafe nm -> SafeComponent nm.
+Proof.
+  intros nm [H1 [H2 H3]]. unfold SafeComponent. split; [|split; [exact H1|split; [exact H2|]]].
+  - intros E. subst nm. vm_compute in H3. discriminate.
+  - apply matches_alphabet in H3. eapply Forall_impl; [|exact H3]. apply filename_alphabet.
+Qed.
+
+Lemma fn_byte_not_separator : forall c, fn_byte c -> c <> 47%N /\ c <> 92%N /\ c <> 0%N.
+Proof. intros c H. unfold fn_byte in H. lia. Qed.
+
+Theorem names_safe : forall k d s st, validate k d = EOk ->
+  In s (d_stmts d) -> In st (s_stores s) ->
+  exists ty nm, st = (ty ++ ":" ++ nm)%string /\ In ty gen_store_types /\ SafeComponent nm.
+Proof.
+  intros k d s st H Hs Hst. apply validate_iff in H. destruct H as [_ [_ [_ [H _]]]].
+  rewrite Forall_forall in H. specialize (H s Hs). destruct H as [_ [_ [_ [Hskip Hn]]]].
+  destruct (String.eqb (sv_level (s_sv s)) "skip") eqn:E.
+  - apply String.eqb_eq in E. destruct (Hskip E) as [H0 _]. rewrite H0 in Hst. destruct Hst.
+  - apply String.eqb_neq in E. destruct (Hn E) as [_ [_ [Hst' _]]].
+    rewrite Forall_forall in Hst'. destruct (Hst' st Hst) as [ty [nm [Ec [Hty Hsafe]]]].
+    exists ty, nm. split; [apply (cut_byte_split _ _ _ _ Ec)|]. split; [exact Hty|].
+    apply filename_safe_component. exact Hsafe.
+Qed.
+
+(* ---------- accepted x509.subject identities carry C, ST and O ---------- *)
+
+Lemma parse_mandatory' : forall v m, parse_distinguished_name v = DOk m ->
+  Forall (fun f => lookup_default f m <> "") mandatory.
+Proof.
+  intros v m. unfold parse_distinguished_name.
+  destruct (has_eqhash (list_ascii_of_string v)); [discriminate|].
+  destruct (parse_dn v) as [rdns| |]; try discriminate.
+  destruct (add_rdns rdns []) as [m'|e]; [|discriminate].
+  destruct (find (fun f => String.eqb (lookup_default f m') "") mandatory) eqn:Ef; [discriminate|].
+  intros H; inversion H; subst. apply Forall_forall. intros f Hf.
+  apply (find_none _ _ Ef) in Hf. apply String.eqb_neq. exact Hf.
+Qed.
+
+Theorem identities_mandatory : forall k d s id v, validate k d = EOk ->
+  In s (d_stmts d) -> In id (s_ids s) -> x509_value id = Some v ->
+  exists m, parse_distinguished_name v = DOk m
+    /\ lookup_default "C" m <> "" /\ lookup_default "ST" m <> "" /\ lookup_default "O" m <> "".
+Proof.
+  intros k d s id v H Hs Hid Hv. apply validate_iff in H. destruct H as [_ [_ [_ [H _]]]].
+  rewrite Forall_forall in H. specialize (H s Hs). destruct H as [_ [_ [_ [Hskip Hn]]]].
+  destruct (String.eqb (sv_level (s_sv s)) "skip") eqn:E.
+  - apply String.eqb_eq in E. destruct (Hskip E) as [_ H0]. rewrite H0 in Hid. destruct Hid.
+  - apply String.eqb_neq in E. destruct (Hn E) as [_ [_ [_ [_ [Hids _]]]]].
+    rewrite Forall_forall in Hids. destruct (Hids id Hid) as [_ [Hw|[p [v' [Ec Hp]]]]].
+    + subst id. discriminate.
+    + unfold x509_value in Hv. rewrite Ec in Hv.
+      destruct (String.eqb p x509_subject) eqn:Ep; [|discriminate].
+      inversion Hv; subst v'. apply String.eqb_eq in Ep. destruct (Hp Ep) as [_ [m Hm]].
+      exists m. split; [exact Hm|]. apply parse_mandatory' in Hm.
+      unfold mandatory in Hm. inversion Hm as [|? ? HC Hm1]; subst.
+      inversion Hm1 as [|? ? HST Hm2]; subst. inversion Hm2 as [|? ? HO _]; subst. auto.
+Qed.
+
+(* ---------- construction of a verifier forces validation ---------- *)
+
+Theorem forced : forall oci blob,
+  new_verifier oci blob = EOk <->
+  (oci <> None \/ blob <> None)
+  /\ (forall d, oci = Some d -> WellFormed OCI d)
+  /\ (forall d, blob = Some d -> WellFormed Blob d).
+Proof.
+  intros [o|] [b|]; unfold new_verifier; rewrite ?andthen_ok, ?validate_iff.
+  - split.
+    + intros [H1 H2]. split; [left; discriminate|]. split; intros d E; inversion E; subst; assumption.
+    + intros [_ [H1 H2]]. split; [apply H1 | apply H2]; reflexivity.
+  - split.
+    + intros [H1 _]. split; [left; discriminate|]. split; intros d E; inversion E; subst; assumption.
+    + intros [_ [H1 _]]. split; [apply H1|]; reflexivity.
+  - split.
+    + intros [_ H2]. split; [right; discriminate|]. split; intros d E; inversion E; subst; assumption.
+    + intros [_ [_ H2]]. split; [|apply H2]; reflexivity.
+  - split; [discriminate|]. intros [[H|H] _]; contradiction.
+Qed.
+
+(* ---------- the first violated rule in code order is the one reported ---------- *)
+
+Lemma first_error_app : forall a b, first_error (a ++ b) = first_error a ;; first_error b.
+Proof.
+  induction a as [|e a IH]; intros b; cbn; [reflexivity|]. rewrite IH. destruct e; reflexivity.
+Qed.
+
+Lemma andthen_EOk_r : forall e, e ;; EOk = e.
+Proof. destruct e; reflexivity. Qed.
+
+Theorem core_first_error : forall s, core_of s = first_error (stmt_rules s).
+Proof.
+  intros s. unfold core_of, validate_policy_core, stmt_rules, first_error,
+    name_rule, level_rule, ts_rule, presence_rule, stores_rule, ids_rule, is_skip.
+  destruct (String.eqb (s_name s) ""); [reflexivity|]. cbn [andthen].
+  destruct (get_level (sv_level (s_sv s)) (sv_override (s_sv s))) as [e|[n enf]] eqn:Eg.
+  - destruct e; reflexivity.
+  - cbn [andthen]. rewrite (get_level_name _ _ _ _ Eg).
+    destruct (ts_ok (sv_ts (s_sv s))); [|reflexivity]. cbn [negb andthen].
+    destruct (String.eqb (sv_level (s_sv s)) "skip").
+    + destruct (negb (is_empty (s_stores s)) || negb (is_empty (s_ids s))); reflexivity.
+    + destruct (is_empty (s_stores s) || is_empty (s_ids s)); [reflexivity|]. cbn [andthen].
+      rewrite andthen_EOk_r. reflexivity.
+Qed.
+
+Lemma oci_loop_first_error : forall ss seen, oci_loop ss seen = first_error (oci_stmt_rules ss seen).
+Proof.
+  induction ss as [|s r IH]; intros seen; cbn [oci_loop oci_stmt_rules first_error]; [reflexivity|].
+  unfold dup_rule. destruct (mem_str (s_name s) seen); [reflexivity|]. cbn [andthen].
+  rewrite first_error_app, <- core_first_error, IH. reflexivity.
+Qed.
+
+Lemma scopes_inner_first_error : forall scs,
+  scopes_inner scs =
+  first_error (map (fun sc => if String.eqb sc wildcard then EOk else validate_scope_format sc) scs).
+Proof.
+  induction scs as [|sc r IH]; cbn [scopes_inner map first_error]; [reflexivity|]. rewrite IH. reflexivity.
+Qed.
+
+Lemma scopes_loop_first_error : forall ss, scopes_loop ss = first_error (flat_map scope_rules ss).
+Proof.
+  induction ss as [|s r IH]; cbn [scopes_loop flat_map]; [reflexivity|].
+  rewrite first_error_app. unfold scope_rules. cbn [app first_error].
+  destruct (is_empty (s_scopes s)); [reflexivity|]. cbn [andthen].
+  destruct (Nat.ltb 1 (List.length (s_scopes s)) && mem_str wildcard (s_scopes s)); [reflexivity|].
+  cbn [andthen]. rewrite scopes_inner_first_error, IH. reflexivity.
+Qed.
+
+Theorem oci_first_error : forall d, validate_oci d = first_error (oci_rules d).
+Proof.
+  intros d. unfold validate_oci, oci_rules, version_rules. cbn [app first_error].
+  destruct (String.eqb (d_version d) ""); [reflexivity|]. cbn [andthen].
+  destruct (mem_str (d_version d) supported_versions); [|reflexivity]. cbn [negb andthen].
+  destruct (is_empty (d_stmts d)); [reflexivity|]. cbn [andthen].
+  rewrite !first_error_app, <- oci_loop_first_error, <- scopes_loop_first_error.
+  cbn [first_error]. rewrite andthen_EOk_r. reflexivity.
+Qed.
+
+Lemma blob_loop_first_error : forall ss seen fg,
+  blob_loop ss seen fg = first_error (blob_stmt_rules ss seen fg).
+Proof.
+  induction ss as [|s r IH]; intros seen fg; cbn [blob_loop blob_stmt_rules first_error]; [reflexivity|].
+  unfold dup_rule. destruct (mem_str (s_name s) seen); [reflexivity|]. cbn [andthen].
+  rewrite !first_error_app, <- core_first_error. cbn [first_error]. unfold is_skip.
+  destruct (core_of s); try reflexivity. cbn [andthen].
+  destruct (s_global s); cbn [andb orb].
+  - destruct fg; [reflexivity|]. cbn [andthen orb].
+    destruct (String.eqb (sv_level (s_sv s)) "skip"); [reflexivity|]. cbn [andthen]. apply IH.
+  - cbn [andthen]. rewrite orb_false_r. apply IH.
+Qed.
+
+Theorem blob_first_error : forall d, validate_blob d = first_error (blob_rules d).
+Proof.
+  intros d. unfold validate_blob, blob_rules, version_rules. cbn [app first_error].
+  destruct (String.eqb (d_version d) ""); [reflexivity|]. cbn [andthen].
+  destruct (mem_str (d_version d) supported_versions); [|reflexivity]. cbn [negb andthen].
+  destruct (is_empty (d_stmts d)); [reflexivity|]. cbn [andthen].
+  apply blob_loop_first_error.
+Qed.
+
+(* ---------- the model meets the oracle ---------- *)
+
+Lemma model_is_spec : forall i, model i = model_spec i.
+Proof.
+  intros [k d o]. unfold model, model_spec, new_verifier, oci_of, blob_of, validate_ptr, validate_json, other_kind.
+  cbn [i_kind i_doc i_other]. destruct k, d as [d|], o as [o|]; try reflexivity;
+    rewrite ?andthen_EOk_r; try reflexivity.
+Qed.
+
+Lemma is_ok_validate : forall k d, is_ok (validate k d) = wellformed_b k d.
+Proof.
+  intros k d. destruct (wellformed_b k d) eqn:E.
+  - apply validate_ok_b in E. rewrite E. reflexivity.
+  - destruct (validate k d) eqn:Ev; try reflexivity.
+    apply validate_ok_b in Ev. congruence.
+Qed.
+
+Lemma is_ok_andthen : forall a b, is_ok (a ;; b) = is_ok a && is_ok b.
+Proof. intros a b. destruct a; reflexivity. Qed.
+
+Lemma enf_code_head : forall enf, lookup "integrity" enf = Some "enforce" ->
+  exists t, enf_code enf = String "e" t.
+Proof.
+  intros enf H. unfold enf_code. cbn [gen_validation_types map String.concat]. rewrite H.
+  cbn. eexists. reflexivity.
+Qed.
+
+Lemma levels_ok_model : forall ss, forallb stmt_ok_b ss = true -> levels_ok ss (map level_obs ss) = true.
+Proof.
+  induction ss as [|s r IH]; cbn [forallb map levels_ok]; [reflexivity|].
+  rewrite andb_true_iff. intros [Hs Hr]. rewrite (IH Hr), andb_true_r.
+  destruct (stmt_yields_integrity s Hs) as [n [enf [Hg Hi]]].
+  unfold level_obs, level_integrity_ok. rewrite Hg. destruct Hi as [Hi|Hi].
+  - rewrite Hi. reflexivity.
+  - destruct (enf_code_head enf Hi) as [t ->]. apply orb_true_r.
+Qed.
+
+Theorem model_spec_ok : forall i, spec_ok i (model i) = true.
+Proof.
+  intros i. rewrite model_is_spec. unfold spec_ok. apply N.eqb_eq.
+  destruct i as [k d o]. unfold fp, model_spec, accept_expected, new_expected, new_verifier,
+    oci_of, blob_of, validate_ptr, validate_json, other_kind.
+  cbn [i_kind i_doc i_other o_val o_json o_new o_levels].
+  destruct d as [d|].
+  - rewrite is_ok_validate, eqb_reflx. cbn [negb].
+    destruct o as [o|].
+    + assert (Hn : is_ok (match k with
+                         | OCI => validate OCI d ;; validate Blob o
+                         | Blob => validate OCI o ;; validate Blob d end)
+                   = wellformed_b k d && wellformed_b (match k with OCI => Blob | Blob => OCI end) o).
+      { destruct k; rewrite is_ok_andthen, !is_ok_validate; [reflexivity | apply andb_comm]. }
+      destruct k; cbn [oci_of blob_of] in *; rewrite Hn, eqb_reflx; cbn [negb];
+        (destruct (wellformed_b _ d) eqn:Ew; [|reflexivity]; cbn [andb];
+         pose proof (proj2 (validate_ok_b _ d) Ew) as Ev; rewrite Ev;
+         rewrite (levels_ok_model _ (accepted_stmts_ok _ _ Ev)); reflexivity).
+    + assert (Hn : is_ok (match k with
+                         | OCI => validate OCI d ;; EOk
+                         | Blob => EOk ;; validate Blob d end) = wellformed_b k d).
+      { destruct k; rewrite ?andthen_EOk_r; cbn [andthen]; apply is_ok_validate. }
+      destruct k; cbn [oci_of blob_of] in *; rewrite Hn, eqb_reflx; cbn [negb];
+        (destruct (wellformed_b _ d) eqn:Ew; [|reflexivity]; cbn [andb];
+         pose proof (proj2 (validate_ok_b _ d) Ew) as Ev; rewrite Ev;
+         rewrite (levels_ok_model _ (accepted_stmts_ok _ _ Ev)); reflexivity).
+  - destruct o as [o|].
+    + destruct k; cbn; rewrite ?andthen_EOk_r;
+        [change (validate_blob o) with (validate Blob o) | change (validate_oci o) with (validate OCI o)];
+        rewrite is_ok_validate, eqb_reflx; reflexivity.
+    + destruct k; reflexivity.
+Qed.
+
+Theorem model_meets_oracle : forall i, wf i = true -> spec_ok i (model i) = true.
+Proof. intros i _. apply model_spec_ok. Qed.
